@@ -55,7 +55,7 @@ def _strategies(max_depth):
         operand = st.one_of(pel, pel, inner)
         pure = st.one_of(
             ints, pel, pel, pel,
-            st.lists(seq, min_size=1, max_size=4).map(lambda bs: ["if", bs]),
+            st.lists(seq, min_size=1, max_size=6).map(lambda bs: ["if", bs]),
             st.tuples(small, seq).map(lambda t: ["SEQ", [t[0], ["for", None, t[1]]]]),
             st.tuples(small, seq).map(lambda t: ["SEQ", [t[0], ["while", [["el", ":"]], t[1] + [["el", "‹"]]], ["el", "_"]]]),
             st.tuples(st.one_of(st.none(), st.integers(0, 3)), seq1, st.booleans()).map(
@@ -76,7 +76,7 @@ def _strategies(max_depth):
         tseq = st.lists(inner_top, max_size=4)
         top = st.one_of(
             inner_top, inner_top, inner_top,
-            st.lists(tseq, min_size=1, max_size=4).map(lambda bs: ["if", bs]),
+            st.lists(tseq, min_size=1, max_size=6).map(lambda bs: ["if", bs]),
             st.tuples(small, st.one_of(st.none(), st.sampled_from(["a", "i"])), tseq).map(lambda t: ["SEQ", [t[0], ["for", t[1], t[2]]]]),
             st.tuples(small, tseq).map(lambda t: ["SEQ", [t[0], ["while", [["el", ":"]], t[1] + [["el", "‹"]]], ["el", "_"]]]),
             st.lists(st.lists(fnlevel, max_size=3), min_size=1, max_size=3).map(lambda bs: ["list", bs]),
@@ -275,6 +275,9 @@ CALL_FORMS = {
     "function-2": lambda body: [["def", "f", ["2"], body], ["num", "4"], ["num", "9"], ["call", "f"]],
     "function-1-1": lambda body: [["def", "f", ["1", "1"], body], ["num", "4"], ["num", "9"], ["call", "f"]],
     "for-body": lambda body: [["num", "6"], ["num", "2"], ["for", None, body]],
+    "if-5-branches": lambda body: [["num", "6"], ["num", "0"], ["if", [[["num", "1"]], [["num", "0"]], [["num", "2"]], [["num", "3"]], body]]],
+    "if-6-branches": lambda body: [["num", "6"], ["num", "0"], ["if", [[["num", "1"]], [["num", "0"]], [["num", "2"]], [["num", "0"]], [["num", "5"]], body]]],
+    "if-7-branches": lambda body: [["num", "6"], ["num", "0"], ["if", [[["num", "1"]], [["num", "0"]], [["num", "2"]], [["num", "0"]], [["num", "5"]], [["el", ":"]], body]]],
     "if-else": lambda body: [["num", "6"], ["num", "0"], ["if", [[["num", "1"]], body]]],
 }
 
